@@ -404,11 +404,11 @@ pub fn sdp_simulcast() -> String {
 /// An SDES (RTP/SAVP) offer as a SIP endpoint sends it.
 pub fn sdp_sdes() -> String {
     "v=0\r\n\
-     o=- 20518 0 IN IP4 203.0.113.1\r\n\
+     o=- 20518 0 IN IP4 127.0.0.1\r\n\
      s=call\r\n\
      t=0 0\r\n\
      m=audio 40000 RTP/SAVP 0 8 101\r\n\
-     c=IN IP4 203.0.113.1\r\n\
+     c=IN IP4 127.0.0.1\r\n\
      a=mid:0\r\n\
      a=rtpmap:0 PCMU/8000\r\n\
      a=rtpmap:8 PCMA/8000\r\n\
